@@ -155,6 +155,53 @@ func main() {
 			e.Strs("tokenListAppendOrder", rest, "TokenList.Append: token objects, then TIDs, then the per-field lists readers search")
 			e.Bool("tokenListAppendLocked", locked, "TokenList.Append starts with appendMu.Lock(); defer appendMu.Unlock()")
 		}
+		if f, err := r.Load("frac/active_token_list.go"); err != nil {
+			e.Missing("tokenProviderOrder", err)
+		} else if fd := f.Func("TokenList", "getTokenProvider"); fd == nil {
+			e.Missing("tokenProviderOrder", "TokenList.getTokenProvider not found")
+		} else {
+			// evaluation order of the two snapshots: the per-field TID list and the tidToVal slice
+			var evs []ev
+			ast.Inspect(fd.Body, func(x ast.Node) bool {
+				switch n := x.(type) {
+				case *ast.CallExpr:
+					if strings.HasSuffix(f.Render(n.Fun), "GetTIDsByField") {
+						evs = append(evs, ev{n.End(), "GetTIDsByField"})
+					}
+				case *ast.AssignStmt:
+					if len(n.Rhs) == 1 && f.Render(n.Rhs[0]) == "tl.tidToVal" {
+						evs = append(evs, ev{n.End(), "tidToVal"})
+					}
+				case *ast.KeyValueExpr:
+					if f.Render(n.Value) == "tl.tidToVal" {
+						evs = append(evs, ev{n.End(), "tidToVal"})
+					}
+				}
+				return true
+			})
+			e.Strs("tokenProviderOrder", sorted(evs), "TokenList.getTokenProvider: order of the reader's two dictionary snapshots")
+		}
+		if f, err := r.Load("storeapi/client.go"); err != nil {
+			e.Missing("inMemoryBulkOrder", err)
+		} else if fd := f.Func("inMemoryAPIClient", "Bulk"); fd == nil {
+			e.Missing("inMemoryBulkOrder", "inMemoryAPIClient.Bulk not found")
+		} else {
+			var evs []ev
+			ast.Inspect(fd.Body, func(x ast.Node) bool {
+				switch n := x.(type) {
+				case *ast.AssignStmt:
+					if len(n.Lhs) == 1 && len(n.Rhs) == 1 && f.Render(n.Lhs[0]) == "in.Metas" {
+						evs = append(evs, ev{n.End(), "in.Metas=" + f.Render(n.Rhs[0])})
+					}
+				case *ast.CallExpr:
+					if strings.HasSuffix(f.Render(n.Fun), "GrpcV1().Bulk") {
+						evs = append(evs, ev{n.End(), "store.Bulk"})
+					}
+				}
+				return true
+			})
+			e.Strs("inMemoryBulkOrder", sorted(evs), "in-memory store client: the metas handed to the asynchronous indexer are a private copy")
+		}
 		if f, err := r.Load("proxy/bulk/indexer.go"); err != nil {
 			e.Missing("firstMetaToken", err)
 		} else if fd := f.Func("indexer", "appendMeta"); fd == nil {
@@ -334,5 +381,5 @@ func main() {
 			e.Bool("trySetClearsUnlessSealing", total == 2 && inside == 2 && sealingDef,
 				"trySetSuicided: `sealing := f.isSealingState()` and the only field writes are sealed=nil, active=nil under `if !sealing`")
 		}
-	}, "frac/active_indexer.go", "frac/active_index.go", "frac/active.go", "frac/active_token_list.go", "proxy/bulk/indexer.go", "fracmanager/proxy_frac.go")
+	}, "frac/active_indexer.go", "frac/active_index.go", "frac/active.go", "frac/active_token_list.go", "storeapi/client.go", "proxy/bulk/indexer.go", "fracmanager/proxy_frac.go")
 }
